@@ -35,7 +35,7 @@ func init() {
 	} {
 		w := w
 		parts = append(parts, Part{Name: w.name, Race: true, Shards: 1, Fn: func(c *Ctx) {
-			reps := c.N(2, 12)
+			reps := c.N(3, 30)
 			c.Cases("rep", reps, func(i int, r *rand.Rand) {
 				for _, frozen := range []bool{true, false} {
 					w.fn(c, frozen, r, i)
